@@ -14,9 +14,10 @@
 (*        delim = the delimiter; explicit = the delimiter option was given *)
 (*        (default: tab, or comma under rfc4180); headers = first line     *)
 (*        lists the attribute names;                                       *)
-(*   kind "channel" (gzip around a text format, JSON, SQLite): the file    *)
-(*        bytes are not modelled; the format is specified as the identity  *)
-(*        on typed tuples (every value is representable).                  *)
+(*        (a gzip-compressed file is the same text, compressed);           *)
+(*   kind "channel" (JSON, SQLite): the file bytes are not modelled; the   *)
+(*        format is specified as the identity on typed tuples (every value *)
+(*        is representable).                                               *)
 (*                                                                         *)
 (* Container text (records / ADTs), as the writer produces it and the      *)
 (* reader documents it:                                                    *)
